@@ -242,7 +242,7 @@ fn strategy(tier: Tier) -> BoxedStrategy<Case> {
             xs: xs(&s.vals),
             bars: vec![]
         }),
-        8 => cfg_among(&BK, 1024, multiplier_any).prop_flat_map(move |cfg| { let ml = if cfg.kind == Kind::Ce { maxlen.max(3 * cfg.n() + 20) } else { maxlen }; (Just(cfg), bar_stream(false, 1, ml)) }).prop_map(|(cfg, s)| Case { cfg, scalar: false, xs: vec![], bars: s.bars }),
+        8 => cfg_among(&BK, 1024, multiplier_any).prop_flat_map(move |cfg| { let ml = if cfg.kind == Kind::Ce { maxlen.max(3 * cfg.n() + 20) } else { maxlen }; (Just(cfg), prop_oneof![bar_stream(false, 1, ml), bar_stream(true, 1, ml)]) }).prop_map(|(cfg, s)| Case { cfg, scalar: false, xs: vec![], bars: s.bars }),
     ]
     .boxed()
 }
